@@ -70,6 +70,71 @@ type offered struct {
 	BadAlgo  bool // the response named an unsupported hash algorithm
 	Op       string
 	HeaderOK bool // header member was absent or a string->string object
+	Transfer string // the transfer member of that response exactly as sent ("" when omitted or not a string)
+	Proto    string // the transfer protocol that response therefore offers its actions for: basic | tus | custom (protocolOf)
+}
+
+// protocolOf: batch.md - "transfer: String identifier of the transfer adapter that the server prefers.  This MUST be one of the
+// given transfer identifiers from the request. ... The Git LFS client will use the basic transfer adapter if the transfer
+// property is omitted."  A response naming an identifier the request did not give is itself outside the API; what the client
+// makes of it is not specified (git-lfs falls back to basic), so its actions are judged by the basic rules.
+func protocolOf(named string, advertised []string) string {
+	if named == "" || named == "basic" {
+		return "basic"
+	}
+	adv := false
+	for _, a := range advertised {
+		if a == named {
+			adv = true
+		}
+	}
+	if !adv {
+		return "basic"
+	}
+	if named == "tus" {
+		return "tus"
+	}
+	return "custom"
+}
+
+// rewriteRule is one url.<Base>.insteadOf = <Alias> (or pushInsteadOf) setting of the client.
+type rewriteRule struct {
+	Push        bool
+	Alias, Base string
+}
+
+// rewriteFacts is the client's URL-rewriting configuration in one execution.
+type rewriteFacts struct {
+	Enabled bool // lfs.transfer.enablehrefrewrite = true
+	Rules   []rewriteRule
+}
+
+func longestAlias(rules []rewriteRule, push bool, href string) (string, bool) {
+	best := -1
+	for i, r := range rules {
+		if r.Push == push && strings.HasPrefix(href, r.Alias) && (best < 0 || len(r.Alias) > len(rules[best].Alias)) {
+			best = i
+		}
+	}
+	if best < 0 {
+		return href, false
+	}
+	return rules[best].Base + href[len(rules[best].Alias):], true
+}
+
+// rewritten is the documented rewriting of an action href (git-lfs-config(5), lfs.transfer.enableHrefRewrite: "If set to true,
+// this enables rewriting href of LFS objects using url.*.insteadof/pushinsteadof config. pushinsteadof is used only for
+// uploading, and insteadof is used for downloading and for uploading when pushinsteadof is not set."); ok = some rule applies.
+func (rw *rewriteFacts) rewritten(rel, href string) (string, bool) {
+	if rw == nil {
+		return href, false
+	}
+	if rel != "download" {
+		if h, ok := longestAlias(rw.Rules, true, href); ok {
+			return h, true
+		}
+	}
+	return longestAlias(rw.Rules, false, href)
 }
 
 // scenarioFacts is what the oracle knows about one execution besides the raw requests.
@@ -84,7 +149,13 @@ type scenarioFacts struct {
 	ServerIDs   map[string]bool            // lock ids the server returned in any response
 	Offers      []offered
 	BadAlgoSeen bool
+	Rewrite     *rewriteFacts             // client URL rewriting configuration (nil: none)
+	TusOffsets  map[string]map[int64]bool // wire URL of a tus upload href -> every Upload-Offset the server answered to a HEAD on it
 }
+
+// agentMarker is the header by which the scripted custom transfer agent of part transfer-seq marks the requests IT makes
+// (with the action git-lfs handed to it); git-lfs itself never sends it.
+const agentMarker = "X-C18-Custom-Agent"
 
 type clauseCounter struct {
 	mu sync.Mutex
@@ -577,34 +648,129 @@ func hrefWire(href string) string {
 	return "http://" + u.Host + u.RequestURI()
 }
 
+// allowedMethods: how an action may be used, by the transfer protocol its batch response named.
+//   basic (basic-transfers.md): download -> GET, upload -> PUT, verify -> POST
+//   tus (docs/api/README.md "Tus.io (upload only)", tus.io core protocol 1.0.0): upload -> HEAD (offset query) and PATCH (data); verify -> POST
+//   custom (custom-transfers.md): upload / download actions are handed to the agent process, git-lfs itself only sends the verify POST
+func allowedMethods(o *offered) []string {
+	switch {
+	case o.Rel == "verify":
+		return []string{"POST"}
+	case o.Proto == "tus" && o.Rel == "upload":
+		return []string{"HEAD", "PATCH"}
+	case o.Proto == "custom" && (o.Rel == "upload" || o.Rel == "download"):
+		return nil // the agent's own protocol
+	}
+	if m, ok := relMethod[o.Rel]; ok {
+		return []string{m}
+	}
+	return []string{}
+}
+
+func methodAllowed(o *offered, method string) bool {
+	am := allowedMethods(o)
+	if am == nil {
+		return true
+	}
+	for _, m := range am {
+		if m == method {
+			return true
+		}
+	}
+	return false
+}
+
+// usedAs names the transfer protocol a storage request belongs to, judged by what is on the wire.
+func usedAs(r *req) string {
+	switch {
+	case r.hget(agentMarker) != "":
+		return "custom"
+	case r.hget("Tus-Resumable") != "" || r.hget("Upload-Offset") != "" || r.Method == "HEAD" || r.Method == "PATCH":
+		return "tus"
+	}
+	return "basic"
+}
+
 func validateNonAPI(v *viols, cc *clauseCounter, r *req, f *scenarioFacts) {
 	cc.add("req:action-use")
 	target := fullURL(r)
 	var sameHref []*offered
+	viaRewrite := false
 	for i := range f.Offers {
 		o := &f.Offers[i]
-		if w := hrefWire(o.Href); w != "" && w == target {
+		w := hrefWire(o.Href)
+		if w == "" {
+			continue
+		}
+		if w == target {
 			sameHref = append(sameHref, o)
+			if f.Rewrite != nil {
+				if _, applies := f.Rewrite.rewritten(o.Rel, o.Href); applies {
+					cc.add("action-href-verbatim-although-an-alias-matches")
+				}
+			}
+			continue
+		}
+		// with lfs.transfer.enablehrefrewrite = true the documented rewriting of the href is a permitted use of it
+		if f.Rewrite != nil && f.Rewrite.Enabled {
+			if h, applies := f.Rewrite.rewritten(o.Rel, o.Href); applies && hrefWire(h) == target {
+				sameHref = append(sameHref, o)
+				viaRewrite = true
+			}
 		}
 	}
 	if len(sameHref) == 0 {
 		cc.add("action-href")
-		v.add("action-href:unoffered:"+r.Method, fmt.Sprintf("%s %s was sent, but no batch response offered an action with exactly this href", r.Method, target), map[string]interface{}{"request": reqSummary(r), "offered": offerList(f)})
+		v.add("action-href:unoffered:"+r.Method, fmt.Sprintf("%s %s was sent, but no batch response offered an action with exactly this href", r.Method, target), map[string]interface{}{"request": reqSummary(r), "offered": offerList(f), "rewriting": f.Rewrite})
 		return
 	}
 	cc.add("action-href")
-	// method: the request must be the documented use of at least one action offered at this href
+	if viaRewrite {
+		cc.add("action-href-rewritten-as-documented")
+	}
+	// method: the request must be the documented use of at least one action offered at this href, under the transfer protocol named by
+	// the batch response that offered it
 	var cands []*offered
 	for _, o := range sameHref {
-		if relMethod[o.Rel] == r.Method {
+		if methodAllowed(o, r.Method) {
 			cands = append(cands, o)
 		}
 	}
 	cc.add("action-method")
 	if len(cands) == 0 {
 		o := sameHref[0]
-		v.add("action-method:"+o.Rel, fmt.Sprintf("%s action (href %s) was used with method %s; the API uses %s for it", o.Rel, o.Href, r.Method, relMethod[o.Rel]), reqSummary(r))
+		if o.Proto == "basic" || o.Proto == "" {
+			v.add("action-method:"+o.Rel, fmt.Sprintf("%s action (href %s) was used with method %s; the API uses %s for it", o.Rel, o.Href, r.Method, relMethod[o.Rel]), reqSummary(r))
+		} else {
+			v.add("action-method:"+o.Proto+":"+o.Rel, fmt.Sprintf("%s action (href %s) of a batch response naming transfer %q was used with method %s; that transfer uses %v for it", o.Rel, o.Href, o.Transfer, r.Method, allowedMethods(o)), reqSummary(r))
+		}
 		cands = sameHref
+	}
+	// transfer type: an upload / download action is used by the adapter of the transfer its own batch response named
+	// (the verify callback is the same POST under every adapter)
+	cc.add("action-transfer-type")
+	ua := usedAs(r)
+	var tcands []*offered
+	for _, o := range cands {
+		p := o.Proto
+		if p == "" {
+			p = "basic"
+		}
+		if o.Rel == "verify" || p == ua {
+			tcands = append(tcands, o)
+		}
+	}
+	if len(tcands) == 0 {
+		o := cands[0]
+		p := o.Proto
+		if p == "" {
+			p = "basic"
+		}
+		v.add("action-transfer:"+p+"-action-used-as-"+ua+":"+o.Rel, fmt.Sprintf("%s action (href %s) was offered by batch response #%d, which named transfer %q (=> %s); the request %s on it belongs to the %s transfer", o.Rel, o.Href, o.RespSeq, o.Transfer, p, r.Method, ua),
+			map[string]interface{}{"request": reqSummary(r), "offered": offerList(f)})
+	} else {
+		cands = tcands
+		cc.add("action-transfer-type:" + ua)
 	}
 	// headers: the same href may have been offered several times (re-requested batches); the request conforms
 	// when it carries all headers of at least one of those offers.  Prefer an offer of a response with a supported hash algorithm.
@@ -627,6 +793,9 @@ func validateNonAPI(v *viols, cc *clauseCounter, r *req, f *scenarioFacts) {
 				for _, k := range hk {
 					want := o.Header[k]
 					if strings.EqualFold(k, "Transfer-Encoding") {
+						if r.Method == "HEAD" {
+							continue // a request without a body has no transfer coding
+						}
 						if got := strings.Join(r.TE, ","); !strings.EqualFold(got, want) {
 							ms = append(ms, miss{k, want, got})
 						}
@@ -658,6 +827,37 @@ func validateNonAPI(v *viols, cc *clauseCounter, r *req, f *scenarioFacts) {
 	}
 	if match.Rel == "verify" && r.Method == "POST" {
 		validateObjectVerify(v, cc, r, f, match)
+	}
+	if match.Proto == "tus" && match.Rel == "upload" && ua == "tus" {
+		validateTus(v, cc, r, f, match)
+	}
+}
+
+// validateTus: the header requirements of the tus.io core protocol 1.0.0 on the requests git-lfs makes on a tus upload action:
+// "The Tus-Resumable header MUST be included in every request"; PATCH: "The Upload-Offset header's value MUST be equal to the
+// current offset of the resource", "All PATCH requests MUST use Content-Type: application/offset+octet-stream".
+func validateTus(v *viols, cc *clauseCounter, r *req, f *scenarioFacts, off *offered) {
+	cc.add("tus-headers:" + r.Method)
+	if got := r.hvalues("Tus-Resumable"); len(got) != 1 || got[0] != "1.0.0" {
+		v.add("tus:"+r.Method+":tus-resumable", fmt.Sprintf("tus %s request: Tus-Resumable is %q, the protocol version is 1.0.0", r.Method, got), reqSummary(r))
+	}
+	if r.Method != "PATCH" {
+		return
+	}
+	if got := r.hvalues("Content-Type"); len(got) != 1 || got[0] != "application/offset+octet-stream" {
+		v.add("tus:PATCH:content-type", fmt.Sprintf("tus PATCH request: Content-Type is %q, the protocol requires application/offset+octet-stream", got), reqSummary(r))
+	}
+	got := r.hvalues("Upload-Offset")
+	n, ok := int64(0), false
+	if len(got) == 1 && digitsRE.MatchString(got[0]) {
+		if _, err := fmt.Sscan(got[0], &n); err == nil && n >= 0 {
+			ok = true
+		}
+	}
+	if !ok || !f.TusOffsets[fullURL(r)][n] {
+		v.add("tus:PATCH:upload-offset", fmt.Sprintf("tus PATCH request: Upload-Offset is %q, the server reported the offsets %v for this upload", got, sizeList(f.TusOffsets[fullURL(r)])), reqSummary(r))
+	} else if n > 0 {
+		cc.add("tus-resumed-at-nonzero-offset")
 	}
 }
 
